@@ -5,6 +5,7 @@ and inlining package-internal callees.  Nothing is executed.
 from __future__ import annotations
 
 import ast
+import os
 from dataclasses import dataclass, field
 from fractions import Fraction
 from typing import Callable, Dict, List, Optional, Set, Tuple
@@ -41,6 +42,13 @@ class Analysis:
         self._cfg: Dict[str, CFG] = {}
         self._rd: Dict[str, ReachingDefs] = {}
         self.stats = {"term_builds": 0, "inlined_calls": 0, "cfg_nodes": 0}
+        kf = os.path.join(os.path.dirname(os.path.abspath(__file__)), "known_functions.txt")
+        self.known_functions = set(open(kf).read().split()) if os.path.exists(kf) else set()
+
+    def known(self, f: FuncInfo) -> bool:
+        """Functions confirmed on the reference tree are treated as interface atoms by rules that reason about them by
+        name; anything else (a helper extracted later) is inlined."""
+        return f.qualname in self.known_functions
 
     def cfg(self, fi: FuncInfo) -> CFG:
         c = self._cfg.get(fi.qualname)
@@ -85,6 +93,9 @@ class Store:
     guards: T
     loops: List[ast.AST]
     aug: Optional[str] = None
+    loop_ranges: List[Optional[T]] = field(default_factory=list)   # Range of each enclosing loop (None when not a range loop)
+    loop_vars: List[Optional[T]] = field(default_factory=list)     # loop variable symbol (range loops) / index symbol
+    via: Optional[str] = None                                       # qualname of the inlined callee the store comes from
 
 
 class TermBuilder:
@@ -280,7 +291,54 @@ class TermBuilder:
         pw = self._piecewise(name, at, defs)
         if pw is not None:
             return pw
+        lag = self._lagged(name, at, defs)
+        if lag is not None:
+            return lag
         return Sym(f"{name}@phi{at.id}")
+
+    def _lagged(self, name, at: Node, defs: List[Node]) -> Optional[T]:
+        """v = init before a range loop; inside the loop v is read first and unconditionally reassigned later in the body:
+        at iteration i the read sees init (first iteration) or the value assigned in iteration i - step."""
+        if len(defs) != 2:
+            return None
+        loops = self.cfg.enclosing_loops(at)
+        if not loops or not isinstance(loops[-1], ast.For):
+            return None
+        L = loops[-1]
+        d_out = [d for d in defs if L not in self.cfg.enclosing_loops(d)]
+        d_in = [d for d in defs if self.cfg.enclosing_loops(d) == loops]
+        if len(d_out) != 1 or len(d_in) != 1:
+            return None
+        d0, d1 = d_out[0], d_in[0]
+        if d1.kind != "stmt" or not isinstance(d1.ast, ast.Assign) or self.cfg.dominates(d1, at):
+            return None
+        hdr = self.cfg.stmt_node[id(L)]
+        if not self.cfg.dominates(d0, hdr) and d0.kind != "entry":
+            return None
+        body = next(self.cfg.nodes[s_] for s_, _k in self.cfg.succ[hdr.id] if self.cfg.nodes[s_].kind == "branch" and self.cfg.nodes[s_].polarity)
+        base = {(id(o), p) for (_t, p, o) in self.cfg.guards(body)}
+        if [g for g in self.cfg.guards(d1) if (id(g[2]), g[1]) not in base]:
+            return None       # conditionally reassigned: a genuine recurrence
+        # the reassignment must be reached on every iteration that continues (no continue skipping it)
+        if self.cfg.paths_avoiding(body, {d1.id}, {hdr.id}, kinds=("n",)) is not None:
+            return None
+        rng = self.loop_range(L)
+        if rng is None or not isinstance(L.target, ast.Name) or rng.step not in (tm.ONE, tm.const(-1)):
+            return None
+        i = Sym(L.target.id)
+        key = (d1.id, name + "#lag")
+        if key in self._busy:
+            return None
+        self._busy.add(key)
+        try:
+            val = self._def_term(name, d1)
+        finally:
+            self._busy.discard(key)
+        if any(isinstance(x, Sym) and "@" in x.name for x in tm.subterms(val)):
+            return None
+        prev = tm.substitute(val, {i.key: tm.add(i, tm.neg(rng.step))})
+        first = tm.compare("==", i, rng.lo)
+        return PW([(first, self._def_term(name, d0)), (tm.negate(first), prev)])
 
     def _def_term(self, name: str, d: Node) -> T:
         if d.kind == "entry":
@@ -506,10 +564,11 @@ class TermBuilder:
                     hdr = self.cfg.stmt_node[id(loops[0])]
                     base = {(id(o), p) for (_t, p, o) in self.cfg.guards(hdr)}
                     extra = [(t, p, o) for (t, p, o) in self.cfg.guards(cn) if (id(o), p) not in base]
-                    if not extra and isinstance(cn.ast, ast.Expr) and cn.ast.value is call:
+                    if isinstance(cn.ast, ast.Expr) and cn.ast.value is call:
                         var, it = self.binder_of(loops[0])
                         elt = self.term(call.args[0], cn)
-                        c = Comp(elt, var, it)
+                        conds = [self._guard_piece(t, p, o) for (t, p, o) in extra]
+                        c = Comp(elt, var, it, [tm.conj(conds)] if conds else [])
                         self.seq_keys.add(c.key)
                         return c
             return None
@@ -763,6 +822,12 @@ class TermBuilder:
                     if isinstance(g.target.elts[1], ast.Name):
                         scope[g.target.elts[1].id] = tm.index(cont, (var,), self.ranks)
                     binders.append((var, Range(tm.ZERO, tm.length(cont))))
+                elif fq == "builtins.zip" and isinstance(g.target, (ast.Tuple, ast.List)) and len(g.target.elts) == len(itc.args):
+                    conts = [self.term(a_, at) for a_ in itc.args]
+                    for el, cont in zip(g.target.elts, conts):
+                        if isinstance(el, ast.Name):
+                            scope[el.id] = tm.index(cont, (var,), self.ranks)
+                    binders.append((var, Range(tm.ZERO, tm.length(conts[0]))))
                 else:
                     elem = tm.index(it, (var,), self.ranks)
                     if isinstance(it, Comp) and not it.conds:
@@ -819,6 +884,12 @@ class TermBuilder:
         c = self.ana.res.callee(self.fi, e)
         args = [self.term(a, at) for a in e.args]
         kw = {k.arg: self.term(k.value, at) for k in e.keywords if k.arg is not None}
+        if any(isinstance(a, ast.Starred) for a in e.args) and not any(k.arg is None for k in e.keywords):
+            expanded = self._expand_starred(e, at)
+            if expanded is not None:
+                args = expanded
+                e = ast.Call(func=e.func, args=[a for a in e.args if not isinstance(a, ast.Starred)], keywords=e.keywords)
+                return self._call_with(c, args, kw, at)
         if any(isinstance(a, ast.Starred) for a in e.args) or any(k.arg is None for k in e.keywords):
             # argument packs cannot be bound statically: keep the call uninterpreted
             args = args + [App("**", (self.term(k.value, at),)) for k in e.keywords if k.arg is None]
@@ -849,6 +920,8 @@ class TermBuilder:
         if c.kind == "ctor":
             return App(c.cls.qualname, args, kw)
         if c.kind in ("external", "builtin", "global"):
+            if c.target == "builtins.dict" and not args and kw:
+                return App("dict", [Tup([Lit(k), v]) for k, v in kw.items()])
             t = tm.make_app(c.target, args, kw)
             if isinstance(t, (Lst, Cat, Rep, Comp)):
                 self.seq_keys.add(t.key)
@@ -866,6 +939,72 @@ class TermBuilder:
             return App("." + c.target, [recv] + args, kw)
         if c.kind == "local":
             return App("local:" + str(c.target), args, kw)
+        return App("<call>", args, kw)
+
+    def _arity(self, t: T) -> Optional[int]:
+        if isinstance(t, Tup):
+            return len(t.elems)
+        if isinstance(t, App) and t.fn in self.ana.prog.functions:
+            f = self.ana.prog.functions[t.fn]
+            if f.node.returns is not None:
+                txt = ast.unparse(f.node.returns)
+                if txt.startswith("Tuple[") and "..." not in txt:
+                    depth, n = 0, 1
+                    for ch in txt[6:-1]:
+                        depth += ch == "["
+                        depth -= ch == "]"
+                        n += (ch == "," and depth == 0)
+                    return n
+        return None
+
+    def _expand_starred(self, e: ast.Call, at) -> Optional[List[T]]:
+        out = []
+        for a in e.args:
+            if not isinstance(a, ast.Starred):
+                out.append(self.term(a, at))
+                continue
+            v = self.term(a.value, at)
+            if isinstance(v, Tup):
+                out.extend(v.elems)
+                continue
+            if isinstance(v, Idx) and len(v.idx) == 1 and isinstance(v.idx[0], Slc) and v.idx[0].hi is None and v.idx[0].step is None:
+                n = self._arity(v.base)
+                lo = v.idx[0].lo
+                lo_v = 0 if lo is None else (int(lo.const_value()) if isinstance(lo, Poly) and lo.const_value() is not None else None)
+                if n is not None and lo_v is not None:
+                    out.extend(tm.index(v.base, (tm.const(k),), self.ranks) for k in range(lo_v, n))
+                    continue
+            n = self._arity(v)
+            if n is not None:
+                out.extend(tm.index(v, (tm.const(k),), self.ranks) for k in range(n))
+                continue
+            return None
+        return out
+
+    def _call_with(self, c, args: List[T], kw: Dict[str, T], at) -> T:
+        """Finish a call whose argument terms are already known (used after starred expansion)."""
+        if c.kind == "internal" and c.func is not None:
+            if self._inlinable(c.func):
+                try:
+                    return self._inline(c.func, args, kw, at)
+                except Opaque:
+                    pass
+            return App(c.func.qualname, args, kw)
+        if c.kind == "method_internal" and c.func is not None:
+            recv = self.term(c.receiver, at)
+            allargs = args if c.func.kind == "staticmethod" else [recv] + args
+            if self._inlinable(c.func):
+                try:
+                    return self._inline(c.func, allargs, kw, at)
+                except Opaque:
+                    pass
+            return App(c.func.qualname, allargs, kw)
+        if c.kind == "ctor":
+            return App(c.cls.qualname, args, kw)
+        if c.kind in ("external", "builtin", "global"):
+            return tm.make_app(c.target, args, kw)
+        if c.kind == "method_unknown":
+            return App("." + c.target, [self.term(c.receiver, at)] + args, kw)
         return App("<call>", args, kw)
 
     def _inlinable(self, f: FuncInfo) -> bool:
@@ -933,7 +1072,23 @@ class TermBuilder:
         return PW(pieces)
 
     # ------------------------------------------------------------ stores
-    def stores(self) -> List[Store]:
+    def _loop_meta(self, loops):
+        rngs, lvars = [], []
+        for lp in loops:
+            r = self.loop_range(lp) if isinstance(lp, ast.For) else None
+            rngs.append(r)
+            if isinstance(lp, ast.For):
+                if r is not None and isinstance(lp.target, ast.Name):
+                    lvars.append(Sym(lp.target.id))
+                else:
+                    lvars.append(self.binder_of(lp)[0])
+            else:
+                lvars.append(None)
+        return rngs, lvars
+
+    def stores(self, inline_effects: bool = True, _depth: int = 0) -> List[Store]:
+        """Subscript / attribute stores of this function.  With inline_effects, stores performed by inlinable callees on
+        objects reachable from their arguments are included, expressed in this function's vocabulary."""
         out = []
         for n in self.cfg.nodes:
             if n.kind != "stmt":
@@ -941,6 +1096,7 @@ class TermBuilder:
             st = n.ast
             targets = []
             aug = None
+            val_e = None
             if isinstance(st, ast.Assign):
                 for t in st.targets:
                     targets += (t.elts if isinstance(t, (ast.Tuple, ast.List)) else [t])
@@ -949,9 +1105,9 @@ class TermBuilder:
                 targets = [st.target]
                 val_e = st.value
                 aug = type(st.op).__name__
-            else:
-                continue
             for t in targets:
+                loops = self.cfg.enclosing_loops(n)
+                rngs, lvars = self._loop_meta(loops)
                 if isinstance(t, ast.Subscript):
                     base = self.term(t.value, n)
                     sl = t.slice
@@ -959,13 +1115,61 @@ class TermBuilder:
                     idx = tuple(self._slice_term(x, n) for x in elts)
                     val = self.term(val_e, n)
                     out.append(Store(n, st, t, base, _root_name(t.value) if isinstance(t.value, ast.Name) else None,
-                                     idx, None, val, self.guard_term(n), self.cfg.enclosing_loops(n), aug))
+                                     idx, None, val, self.guard_term(n), loops, aug, rngs, lvars))
                 elif isinstance(t, ast.Attribute):
                     base = self.term(t.value, n)
                     val = self.term(val_e, n)
                     out.append(Store(n, st, t, base, _root_name(t.value), None, t.attr, val, self.guard_term(n),
-                                     self.cfg.enclosing_loops(n), aug))
+                                     loops, aug, rngs, lvars))
+            if not inline_effects or _depth >= 3:
+                continue
+            # effects of inlinable callees invoked by this statement
+            for call in [c for c in ast.walk(st) if isinstance(c, ast.Call)] if isinstance(st, (ast.Expr, ast.Assign, ast.AugAssign, ast.AnnAssign, ast.Return)) else []:
+                c = self.ana.res.callee(self.fi, call)
+                f = c.func
+                if f is None or c.kind not in ("internal", "method_internal") or not self._inlinable(f) or f.kind in ("property", "setter"):
+                    continue
+                if self.cfg.expr_node.get(id(call)) is not n:
+                    continue
+                try:
+                    args = [self.term(a, n) for a in call.args if not isinstance(a, ast.Starred)]
+                    if any(isinstance(a, ast.Starred) for a in call.args):
+                        ex = self._expand_starred(call, n)
+                        if ex is None:
+                            continue
+                        args = ex
+                    kw = {k.arg: self.term(k.value, n) for k in call.keywords if k.arg is not None}
+                    if c.kind == "method_internal" and f.kind != "staticmethod":
+                        args = [self.term(c.receiver, n)] + args
+                    bind = {}
+                    for pname, a in zip(f.params, args):
+                        bind[pname] = a
+                    bind.update(kw)
+                    sub = TermBuilder(self.ana, f, bindings=bind, depth=self.depth + 1, no_inline=self.no_inline)
+                    sub_stores = sub.stores(inline_effects=True, _depth=_depth + 1)
+                except (Opaque, AnalysisError):
+                    continue
+                g_here = self.guard_term(n)
+                loops_here = self.cfg.enclosing_loops(n)
+                rngs_h, lvars_h = self._loop_meta(loops_here)
+                arg_roots = {_root_term(a).key for a in bind.values()}
+                for s2 in sub_stores:
+                    # only effects on objects that come from the caller: the written object is reached from an argument
+                    if _root_term(s2.base).key not in arg_roots:
+                        continue
+                    out.append(Store(n, s2.stmt, s2.target, s2.base, None, s2.idx, s2.attr, s2.value, tm.conj([g_here, s2.guards]),
+                                     loops_here + s2.loops, s2.aug, rngs_h + s2.loop_ranges, lvars_h + s2.loop_vars,
+                                     via=s2.via or f.qualname))
+                for k_, v_ in sub.loopvars.items():
+                    self.loopvars.setdefault(k_, v_)
         return out
+
+
+def _root_term(t: T) -> T:
+    """Left-most object of an attribute / subscript chain."""
+    while isinstance(t, (Attr, Idx)):
+        t = t.base
+    return t
 
 
 def _root_name(e) -> Optional[str]:
